@@ -30,7 +30,7 @@ type govMon struct {
 	snapshot    map[string]map[string]int64
 
 	reachedVoting, internalFinal, internalExpiry, refunds int
-	expiredAt map[string]int64 // height at which a proposal was first seen expired
+	expiredAt                                             map[string]int64 // height at which a proposal was first seen expired
 }
 
 // an expired proposal is queued at the next BeginBlock and finalised (failed distribution) at that
